@@ -12,6 +12,7 @@ Layers (helpers in `Proofs/C10/`):
 -/
 import Proofs.C10.Dict
 import Proofs.C10.Model
+import Proofs.C10.Dotted
 namespace Quanto
 open Quanto.C10
 
@@ -455,5 +456,39 @@ example : [("fc1.", sampleModule4), ("fc10.", sampleModule8), ("block.0.fc1.", s
   simp only [List.pairwise_cons, List.mem_cons, List.not_mem_nil, or_false, forall_eq_or_imp, forall_eq,
     List.Pairwise.nil, and_true]
   exact ⟨⟨h12, h13⟩, h23, fun _ h => nomatch h⟩
+
+/-! ### T8 — the independence hypothesis of T7 follows from the module paths
+
+`dottedPrefix p` is the key prefix of the module at path `p` (every component followed by a dot).  When no
+component contains a dot (torch rejects such child names) two paths neither of which is a prefix of the other
+— two different quantized leaves of a module tree — never produce a common key, so every leaf of a model of
+any shape is read back from the whole-model dict. -/
+
+theorem C10_prefixIndep_of_paths (p q : List String) (hp : ∀ c ∈ p, '.' ∉ c.toList)
+    (hq : ∀ c ∈ q, '.' ∉ c.toList) (h1 : ¬ p <+: q) (h2 : ¬ q <+: p) :
+    ∀ x y, dottedPrefix p ++ x ≠ dottedPrefix q ++ y :=
+  prefixIndep_of_paths p q hp hq h1 h2
+
+theorem C10_model_roundtrip_paths (ms : List (List String × QModuleSer))
+    (hdot : ∀ pm ∈ ms, ∀ c ∈ pm.1, '.' ∉ c.toList)
+    (hpre : ms.Pairwise fun a b => ¬ a.1 <+: b.1 ∧ ¬ b.1 <+: a.1)
+    (pm : List String × QModuleSer) (hm : pm ∈ ms) (wf : pm.2.WellFormed) :
+    QModuleSer.load (dottedPrefix pm.1) pm.2.bias.isSome
+      (modelSave (ms.map fun pm => (dottedPrefix pm.1, pm.2))) = some pm.2 := by
+  have hp : (ms.map fun pm => (dottedPrefix pm.1, pm.2)).Pairwise
+      fun a b => ∀ x y, a.1 ++ x ≠ b.1 ++ y := by
+    rw [List.pairwise_map]
+    refine List.Pairwise.imp_of_mem ?_ hpre
+    intro a b ha hb hab
+    exact C10_prefixIndep_of_paths a.1 b.1 (hdot a ha) (hdot b hb) hab.1 hab.2
+  exact C10_model_roundtrip _ hp (dottedPrefix pm.1, pm.2) (List.mem_map_of_mem (f := fun pm : List String × QModuleSer => (dottedPrefix pm.1, pm.2)) hm) wf
+
+/-- non-vacuity: three quantized leaves of a nested model (`0`, `block.0.fc`, `block.1`) -/
+example : dottedPrefix ["block", "0", "fc"] = "block.0.fc." := by decide
+example :
+    let ms : List (List String × QModuleSer) :=
+      [(["0"], sampleModule4), (["block", "0", "fc"], sampleModule8), (["block", "1"], sampleModule4)]
+    (∀ pm ∈ ms, ∀ c ∈ pm.1, '.' ∉ c.toList) ∧ ms.Pairwise fun a b => ¬ a.1 <+: b.1 ∧ ¬ b.1 <+: a.1 := by
+  decide
 
 end Quanto
